@@ -7,6 +7,7 @@ import numpy as np
 
 import geom
 import implrun as R
+import rotcheck as RC
 import spatial as S
 
 
@@ -79,6 +80,21 @@ def gen_case(rng):
     return {'shape': list(shape), 'bboxes': S.random_boxes(rng, shape), 'seed': rng.randint(0, 10 ** 6)}
 
 
+def check_rotation(case, viol):
+    try:
+        res = RC.run_case(case)
+    except Exception as e:  # noqa
+        viol.append({'site': 'C02:free-rotation:raises', 'kind': 'rotation', 'case': case,
+                     'observed': '%s: %s' % (type(e).__name__, e), 'expected': 'no exception'})
+        return
+    for kind, what, obs, exp in res or []:
+        if kind != 'box':
+            continue
+        site = 'C02:free-rotation:%s:%s' % (what, 'xy' if case['plane'] == 'xy' else 'planes-with-z')
+        viol.append({'site': site, 'kind': 'rotation', 'case': case, 'observed': obs, 'expected': exp})
+        return
+
+
 def run(seed=0, tier='quick', hints=None, broken=False):
     rng = random.Random(seed * 7919 + 2)
     n = 6 if tier == 'quick' else 150
@@ -108,13 +124,20 @@ def run(seed=0, tier='quick', hints=None, broken=False):
             check_resample(c['cls'], c, case, viol)
             evals += 1
             seen.add((c['cls'], shape))
+    for _ in range(n * 2):
+        case = RC.gen_case(rng)
+        check_rotation(case, viol)
+        evals += 1
+        seen.add(('rotation', case['cls'], case['plane'], case['method']))
     return {'violations': viol, 'info': {'evaluations': evals, 'distinct': len(seen),
-                                         'what': 'box path vs voxel path (lattice map derived from labelled volume)'}}
+                                         'what': 'box path vs voxel path (lattice map derived from labelled volume; affine fit for free rotations)'}}
 
 
 def replay(v):
     viol = []
-    if v.get('kind') == 'resample':
+    if v.get('kind') == 'rotation':
+        check_rotation(v['case'], viol)
+    elif v.get('kind') == 'resample':
         check_resample(v['name'], v['pipeline'][0], v['case'], viol)
     else:
         check_lattice(v['name'], v['pipeline'], v['case'], viol)
